@@ -380,12 +380,13 @@ Fixpoint cstr (l : list Z) : list Z :=
   end.
 Definition no_nul (l : list Z) : Prop := Forall (fun c => c <> 0) l.
 
-(* header_ustar: prefix, a '/' unless the prefix already ends with one, name *)
-Definition ustar_join (prefix_field name_field : list Z) : list Z :=
+(* header_ustar: prefix, a '/' (always, or - older shape of the code - unless the prefix already ends with one), name *)
+Definition ustar_join_gen (always_slash : bool) (prefix_field name_field : list Z) : list Z :=
   match prefix_field with
   | [] => cstr name_field
   | c :: _ =>
       if c =? 0 then cstr name_field
       else let p := cstr prefix_field in
-           (if last_byte p =? slash then p else p ++ [slash]) ++ cstr name_field
+           (if always_slash || negb (last_byte p =? slash) then p ++ [slash] else p) ++ cstr name_field
   end.
+Definition ustar_join : list Z -> list Z -> list Z := ustar_join_gen USTAR_join_always_slash.
